@@ -42,11 +42,18 @@ def gen_cases(chk):
         "pw 1 0,0,0,a,a %s accelerate_pw_rel_compression=0;losslessCompressor=GZIP_COMPRESSOR 8 5c32 100" % dbits(0.5),  # zero on the threshold
         "pw 0 0,0,0,0,40 %s szMode=SZ_BEST_SPEED 4 1 3" % dbits(0.01),                                                   # all negative (first element's sign)
     ]
+    # smooth, compressible, mixed-sign fields with a few magnitudes ~2^-100 and zeros, on the log-transform path of every rank
+    for t in ((4096,), (64, 64), (8, 16, 32), (4, 8, 8, 16)):
+        dims = ",".join("%x" % v for v in [0] * (5 - len(t)) + list(t))
+        for ty in (0, 1):
+            for r in (8e-6, 3e-6, 1e-3):
+                cfg = "szMode=SZ_BEST_SPEED" if r < 1e-5 else "szMode=SZ_BEST_SPEED;accelerate_pw_rel_compression=0"
+                cases.append("pw %x %s %s %s 10 %x %d" % (ty, dims, dbits(r), cfg, rng.getrandbits(16), rng.choice((100, 60))))
     n = 1500 if thorough else 260
     for _ in range(n):
         t = rng.choice(SHAPES)
         dims = ",".join("%x" % v for v in [0] * (5 - len(t)) + list(t))
-        cases.append("pw %x %s %s %s %d %x %d" % (rng.choice((0, 1)), dims, dbits(rng.choice(RATIOS)), rng.choice(CFGS), rng.choice((0, 1, 2, 3, 4, 5, 6, 7, 8, 9)),
+        cases.append("pw %x %s %s %s %d %x %d" % (rng.choice((0, 1)), dims, dbits(rng.choice(RATIOS)), rng.choice(CFGS), rng.choice((0, 1, 2, 3, 4, 5, 6, 7, 8, 9, 10)),
                                                     rng.getrandbits(16), rng.choice((3, 30, 100))))
     return cases
 
